@@ -103,8 +103,26 @@ def matrix(tier="quick", every=False):
     print("MISSED:", missed)
 
 
+def benign_matrix(tier="quick"):
+    """Run every check against every behaviour-preserving change under benign/: any VIOLATION line is
+    an alarm on code where the property holds (a broken tie / correspondence, or a harness mistake)."""
+    root = os.path.join(VERIF, "benign")
+    results = {}
+    for name in sorted(os.listdir(root)):
+        d = os.path.join(root, name)
+        if not os.path.isfile(os.path.join(d, "patch.diff")):
+            continue
+        r = detect(d, tier, ALL_PROPS)
+        alarms = {p: x["lines"] for p, x in (r or {}).items() if isinstance(x, dict) and x.get("rc") != 0}
+        results[name] = {"alarms": alarms, "error": (r or {}).get("error")}
+        print(name, json.dumps(results[name]), flush=True)
+    json.dump(results, open(os.path.join(root, "RESULTS-%s.json" % tier), "w"), indent=1)
+
+
 if __name__ == "__main__":
-    if sys.argv[1] == "matrix":
+    if sys.argv[1] == "benign":
+        benign_matrix(sys.argv[2] if len(sys.argv) > 2 else "quick")
+    elif sys.argv[1] == "matrix":
         matrix(sys.argv[2] if len(sys.argv) > 2 else "quick", len(sys.argv) > 3 and sys.argv[3] == "all")
     elif sys.argv[1] == "validate":
         for d in sys.argv[2:]:
